@@ -16,7 +16,7 @@ prop("C13",
                         "attenuation_physical_bins_through_cylinder": 100000,
                         "cfg_tof_data_nontof_factors": 100, "cfg_tof_factors": 50, "cfg_anisotropic_grid": 300,
                         "cfg_isotropic_grid": 300, "cfg_default_ray_tracing_projector": 30, "trivial_identity_checks": 100,
-                        "trivial_identity_checks_components": 30,
+                        "trivial_identity_checks_components": 30, "objects_checked_again_after_a_second_set_up": 1500, "objects_checked_again_after_a_second_set_up_attenuation": 500,
                         "cfg_pet_symmetry_grouping": 3000},
               "thorough": {"bins_checked_projdata": 1000000, "bins_checked_attenuation": 1000000, "attenuation_tight_bins": 3000000,
                            "attenuation_physical_bins": 1500000, "chains_len1": 1000, "chains_len2": 1000, "chains_len3": 1000,
